@@ -340,14 +340,19 @@ class SparselyBin(Factory, Container):
             if not isinstance(q, numbers.Real):
                 raise TypeError(f"function return value ({q}) must be boolean or number")
 
+            newbin = None
             if self.nan(q):
                 self.nanflow.fill(datum, weight)
             else:
                 b = self.bin(q)
-                if b not in self.bins:
-                    self.bins[b] = self.value.copy()
-                self.bins[b].fill(datum, weight)
+                if b in self.bins:
+                    self.bins[b].fill(datum, weight)
+                else:
+                    newbin = self.value.copy()
+                    newbin.fill(datum, weight)
             # no possibility of exception from here on out (for rollback)
+            if newbin is not None:
+                self.bins[b] = newbin
             self.entries += weight
 
     def _numpy(self, data, weights, shape):
